@@ -22,13 +22,26 @@ def rand_case(rng, kinds=None, nmin=6, nmax=30):
     for j in range(a, b):
         if rng.random() < 0.6:
             t[j] = rng.choice("ATGC")
-    return dict(sequence=seq, spec=d, window=[a, b], rh=rh, edited="".join(t))
+    if d["kind"] in ("pattern", "insert") and rng.random() < 0.6:
+        # make the edit create an occurrence (on either strand) so that the law is exercised non-vacuously
+        from props import C11
+        toks = C11.parse_shorthand(d["pattern"]).split()
+        if toks[0] == "dna":
+            inst = "".join(rng.choice(C11.IUPAC_SETS.get(ch, "A")) for ch in toks[1])
+        else:
+            inst = "".join(rng.choice("ATGC") for _ in range(int(toks[2]))) * int(toks[1])
+        if rng.random() < 0.5:
+            inst = C11.rc(inst)
+        if len(inst) <= b - a:
+            pos = rng.randint(a, b - len(inst))
+            t[pos:pos + len(inst)] = inst
+    return dict(sequence=seq, spec=d, window=[a, b], wstrand=rng.choice([0, 0, 0, 1, -1]), rh=rh, edited="".join(t))
 
 
-def localize(spec, stub, window, rh):
+def localize(spec, stub, window, rh, wstrand=0):
     from dnachisel import Location
     kw = {} if rh == "-" else {"with_righthand": rh == "1"}
-    return spec.localized(Location(window[0], window[1], 0), problem=stub, **kw)
+    return spec.localized(Location(window[0], window[1], wstrand), problem=stub, **kw)
 
 
 def correspondence(ctx, n):
@@ -49,14 +62,14 @@ def correspondence(ctx, n):
             continue
         r = None
         try:
-            r = localize(spec, stub, (a, b), rh)
+            r = localize(spec, stub, (a, b), rh, case["wstrand"])
             ans = "none" if r is None else ("same" if r is spec else bspec.text(r))
         except TypeError:
             ans = "typeerror"
         except Exception:
             ans = "raises"
         straddle = d.get("location") is not None and (a < d["location"][0] < b or a < d["location"][1] < b)
-        c.add("spec.local | %s | %d:%d:0 %s | %s" % (t, a, b, rh, seq), ans, meta=case, nontrivial=straddle or ans not in ("same", "none", "typeerror"),
+        c.add("spec.local | %s | %d:%d:%d %s | %s" % (t, a, b, case["wstrand"], rh, seq), ans, meta=case, nontrivial=straddle or ans not in ("same", "none", "typeerror"),
               branch="local:%s:%s" % (d["kind"], ans.split()[0] if ans in ("none", "same", "typeerror", "raises") else "new"))
         cmpf = bspec.compare_eval_unordered if d["kind"] == "kmers" else bspec.compare_eval
         for s2 in (seq, case["edited"]):
@@ -91,11 +104,24 @@ def law_case(case, out, sound=True, exact=True):
         return 0
     role = bspec.ROLE.get(d["kind"], "constraint")
     try:
-        L = localize(spec, stub, (a, b), rh)
+        L = localize(spec, stub, (a, b), rh, case.get("wstrand", 0))
     except TypeError:
         return 0
+    except Exception as e:
+        out.append(dict(kind="localized-raised:%s" % d["kind"], input=case, detail=repr(e)[:200]))
+        return 1
+    Ls = [None]
     if L is not None:
-        L = L.initialized_on_problem(hard.Stub(seq), role=role)
+        # the law is evaluated both on the localized object as returned (the property's observation
+        # point) and on its re-initialisation on a local problem (what the solver evaluates)
+        Ls = [L]
+        try:
+            L2 = L.initialized_on_problem(hard.Stub(seq), role=role)
+            if L2 is not L:
+                Ls.append(L2)
+        except Exception as e:
+            out.append(dict(kind="localized-init-raised:%s" % d["kind"], input=case, detail=repr(e)[:200]))
+            return 1
 
     def ev(sp, s):
         st = hard.Stub(s)
@@ -110,18 +136,19 @@ def law_case(case, out, sound=True, exact=True):
             out.append(dict(kind="localized-none-but-score-changed:%s" % d["kind"], input=case,
                             detail="%r -> %r" % (float(g0.score), float(g1.score))))
         return 1
-    try:
-        l0, l1 = ev(L, seq), ev(L, t)
-    except Exception as e:
-        out.append(dict(kind="localized-evaluate-raised:%s" % d["kind"], input=case, detail=repr(e)[:200]))
-        return 1
-    if sound and g0.passes and l1.passes and not g1.passes:
-        out.append(dict(kind="local-pass-global-fail:%s" % d["kind"], input=case,
-                        detail="global %r -> %r, localized %r -> %r" % (float(g0.score), float(g1.score), float(l0.score), float(l1.score))))
-    if exact and d["kind"] != "kmers":
-        dg, dl = float(g1.score) - float(g0.score), float(l1.score) - float(l0.score)
-        if abs(dg - dl) > 1e-9 * max(1.0, abs(dg)):
-            out.append(dict(kind="score-difference-mismatch:%s" % d["kind"], input=case, detail="global %r localized %r" % (dg, dl)))
+    for L in Ls:
+        try:
+            l0, l1 = ev(L, seq), ev(L, t)
+        except Exception as e:
+            out.append(dict(kind="localized-evaluate-raised:%s" % d["kind"], input=case, detail=repr(e)[:200]))
+            return 1
+        if sound and g0.passes and l1.passes and not g1.passes:
+            out.append(dict(kind="local-pass-global-fail:%s" % d["kind"], input=case,
+                            detail="global %r -> %r, localized %r -> %r" % (float(g0.score), float(g1.score), float(l0.score), float(l1.score))))
+        if exact and d["kind"] != "kmers":
+            dg, dl = float(g1.score) - float(g0.score), float(l1.score) - float(l0.score)
+            if abs(dg - dl) > 1e-9 * max(1.0, abs(dg)):
+                out.append(dict(kind="score-difference-mismatch:%s" % d["kind"], input=case, detail="global %r localized %r" % (dg, dl)))
     return 1
 
 
